@@ -11,5 +11,7 @@ CHECKS = {
     "C11": {"pkg": "checks/c11", "test": "TestC11", "level": "model_checking", "shards": 16, "budget_s": {"quick": 100, "thorough": 1500}},
     "C12": {"pkg": "checks/c12", "test": "TestC12", "level": "exploration", "shards": 16},
     "C17": {"pkg": "checks/c17", "test": "TestC17", "level": "model_checking", "shards": 16, "gomaxprocs": 1},
+    "C18": {"pkg": "checks/c18", "test": "TestC18", "level": "fault_enumeration", "shards": 16,
+            "overlay": {"name": "c18", "os_to_vos": ["storage/storage_json.go"]}},
     "C19": {"pkg": "checks/c19", "test": "TestC19", "level": "model_checking", "shards": 16},
 }
